@@ -86,6 +86,7 @@ func buildOverlay(spec *HarnessSpec, verifDir string) (*overlaySet, error) {
 		if err != nil {
 			return nil, err
 		}
+		b = bytes.Replace(b, []byte("package PKG\n"), []byte("package "+pkgName+"\n"), 1)
 		for _, m := range harnessFuncRe.FindAllSubmatch(b, -1) {
 			ov.harnessNames = append(ov.harnessNames, string(m[1]))
 		}
